@@ -327,6 +327,104 @@ def run(ctx):
         if bad:
             mism.append(dict(oracle_fail=True, case=describe(c, o), failed_clauses=bad, model_disagrees=False))
             dump_case(c, o)
+    # stream 4: mixed dtypes between operator, right-hand side and guess (complex/real, float64/float32 in every combination),
+    # the caller's x0 snapshotted before and after the call, and one algorithm object / lazy inverse reused for two solves
+    from cola.linalg.inverse.gmres import gmres as _gmres, GMRES as _GMRES
+    DTS = [np.float32, np.float64, np.complex64, np.complex128]
+    mixed = reuse = 0
+
+    def mixed_fail(desc, clauses):
+        mism.append(dict(oracle_fail=True, case=core_json(desc), failed_clauses=clauses, model_disagrees=False))
+
+    def minres_ok(Ad, b, x0, x, m, epsmix, tolv, kap):
+        """clauses of the property on one column, computed in complex128"""
+        Ac, bc, x0c, xc = Ad.astype(complex), b.astype(complex), x0.astype(complex), np.asarray(x).astype(complex)
+        if not np.all(np.isfinite(xc)):
+            return ["non-finite solution"]
+        r0n = float(np.linalg.norm(bc - Ac @ x0c))
+        res = float(np.linalg.norm(bc - Ac @ xc))
+        _, ro, _ = G.ls_optimum(Ac, bc, x0c, m)
+        floor = 1e3 * epsmix * (float(np.linalg.norm(Ac, 2)) * float(np.linalg.norm(xc) + np.linalg.norm(x0c)) + float(np.linalg.norm(bc)))
+        slack = (1e-6 + 1e3 * epsmix * kap * kap + 30 * tolv * kap) * r0n + floor
+        out = []
+        if res > ro * (1 + 1e-6) + slack:
+            out.append("residual %.6e exceeds the least-squares optimum %.6e over x0+K_%d (||r0||=%.3e)" % (res, ro, m, r0n))
+        return out
+    for _ in range(ctx.budget(120, 700)):
+        n = int(rs.integers(2, 10))
+        dA, dB, dX = [DTS[int(rs.integers(0, 4))] for _k in range(3)]
+        cA = np.issubdtype(dA, np.complexfloating)
+        Ad = G.make_matrix(rs, n, cA, G.KINDS[int(rs.integers(0, len(G.KINDS)))], float(10 ** rs.uniform(0, 1.2))).astype(dA)
+        kap = float(np.linalg.cond(Ad.astype(complex)))
+        nc = int(rs.choice([1, 1, 2, 3]))
+        mk = lambda dt, shape: (rs.normal(size=shape) + (1j * rs.normal(size=shape) if np.issubdtype(dt, np.complexfloating) else 0)).astype(dt)
+        B = mk(dB, (n, nc))
+        X0 = mk(dX, (n, nc)) if rs.random() < 0.6 else None
+        if rs.random() < 0.15 and X0 is not None:
+            B[:, 0] = (Ad.astype(complex) @ X0[:, 0].astype(complex)).astype(dB) if np.issubdtype(dB, np.complexfloating) or not (cA or np.issubdtype(dX, np.complexfloating)) else B[:, 0]
+        m = int(rs.choice([n, n + 2, int(rs.integers(1, n + 1))]))
+        tolv = 1e-7
+        single = any(np.dtype(d).itemsize <= (8 if np.issubdtype(d, np.complexfloating) else 4) for d in ([dA, dB] + ([dX] if X0 is not None else [])))
+        epsmix = 1.2e-7 if single else 2.2e-16
+        vec = bool(nc == 1 and rs.random() < 0.5)
+        b_in = B[:, 0].copy() if vec else B.copy()
+        x_in = None if X0 is None else (X0[:, 0].copy() if vec else X0.copy())
+        snap = None if x_in is None else (x_in.copy(), x_in.dtype, x_in.shape)
+        desc = dict(n=n, nc=nc, dtypes=dict(A=np.dtype(dA).name, b=np.dtype(dB).name, x0=None if X0 is None else np.dtype(dX).name), max_iters=m, vector_api=vec,
+                    A=Ad.tolist() if n <= 4 else None, B=B.tolist() if n <= 4 else None, X0=None if (X0 is None or n > 4) else X0.tolist(), stream="mixed_dtypes")
+        mixed += 1
+        try:
+            with np.errstate(all="ignore"):
+                x, _ = _gmres(Dense(Ad), b_in, x0=x_in, max_iters=m, tol=tolv)
+            x = np.asarray(x)
+            bad = []
+            if x.shape != b_in.shape:
+                bad.append("shape %s of the solution, %s expected" % (x.shape, b_in.shape))
+            else:
+                if snap is not None and not (x_in.dtype == snap[1] and x_in.shape == snap[2] and np.array_equal(x_in, snap[0])):
+                    bad.append("the caller's x0 array was modified by gmres")
+                Xs = x.reshape(n, nc)
+                for j in range(nc):
+                    x0j = np.zeros(n, dtype=complex) if X0 is None else X0[:, j]
+                    bad += ["column %d: %s" % (j, t) for t in minres_ok(Ad, B[:, j], x0j, Xs[:, j], m, epsmix, tolv, kap)]
+            if bad:
+                mixed_fail(desc, bad)
+        except Exception as e:  # noqa
+            mixed_fail(desc, ["raised %s: %s" % (type(e).__name__, str(e)[:120])])
+    # one GMRES(x0=...) object, and one lazy inverse built from it, used for two different right-hand sides
+    for _ in range(ctx.budget(40, 250)):
+        n = int(rs.integers(2, 10))
+        cplx = bool(rs.random() < 0.4)
+        Ad = G.make_matrix(rs, n, cplx, G.KINDS[int(rs.integers(0, len(G.KINDS)))], float(10 ** rs.uniform(0, 1.2)))
+        kap = float(np.linalg.cond(Ad))
+        mk = lambda shape: (rs.normal(size=shape) + (1j * rs.normal(size=shape) if cplx else 0)).astype(Ad.dtype)
+        vec = bool(rs.random() < 0.5)
+        nc = 1
+        x0 = mk((n,) if vec else (n, 1))
+        b1, b2 = mk((n,) if vec else (n, 1)), mk((n,) if vec else (n, 1))
+        m = int(rs.integers(1, n))
+        keep = x0.copy()
+        alg = _GMRES(x0=x0, max_iters=m, tol=1e-7)
+        desc = dict(n=n, complex=cplx, max_iters=m, vector_api=vec, A=Ad.tolist() if n <= 4 else None, stream="reused_algorithm")
+        reuse += 1
+        try:
+            via = str(rs.choice(["solve", "inv"]))
+            if via == "solve":
+                y1 = np.asarray(cola.linalg.solve(Dense(Ad), b1, alg))
+                y2 = np.asarray(cola.linalg.solve(Dense(Ad), b2, alg))
+            else:
+                Iop = cola.linalg.inv(Dense(Ad), alg)
+                y1 = np.asarray(Iop @ b1)
+                y2 = np.asarray(Iop @ b2)
+            bad = []
+            if not np.array_equal(x0, keep):
+                bad.append("the x0 stored in the GMRES object was overwritten by a solve (%s path)" % via)
+            for name, yy, bb in (("first", y1, b1), ("second", y2, b2)):
+                bad += ["%s solve: %s" % (name, t) for t in minres_ok(Ad, bb.reshape(-1), keep.reshape(-1), yy.reshape(-1), m, 2.2e-16, 1e-7, kap)]
+            if bad:
+                mixed_fail(dict(desc, via=via), bad)
+        except Exception as e:  # noqa
+            mixed_fail(desc, ["raised %s: %s" % (type(e).__name__, str(e)[:120])])
     # monotonicity in m (meaningful only once the iterate is the minimiser) and the inv(A, GMRES(...)) @ b entry point
     mono, invpath = 0, 0
     by_sys = {}
@@ -372,14 +470,14 @@ def run(ctx):
         return h
     nontriv = {core.digest((c["sys_id"], c["m"])) for c, o in zip(cases, obs) if o.get("ok") and c["n"] >= 2 and o["steps"] >= 1}
     return dict(
-        evaluations=len(cases) + invpath, distinct_nontrivial=len(nontriv),
+        evaluations=len(cases) + invpath + mixed + reuse, distinct_nontrivial=len(nontriv),
         rule="invertible systems of 6 kinds (shifted Gaussian, normal, non-normal with prescribed singular values, SPD, scaled unitary, triangular), real/complex, "
              "n 1..%d in Coq (kappa <= 30; plus spread spectra - outliers 300-1000x the bulk, graded, clustered - with kappa 3e2..1e4, n 6..14/24, m >= 5) and 20..%d oracle-only (kappa <= 5e3), 1-3 columns with absolute scales 1e-14..1e8, random and eigenvector right-hand sides (grade 1-3), x0 none/zero/random/warm start accurate to 1e-12..1e-6, "
              "max_iters from 1 to n+4, tol 1e-12..1e-3 with the defaults 1e-7 / 1e-6 drawn often; non-trivial = n>=2 and at least one Arnoldi step; distinct by (system, max_iters)" % (nmax, ctx.budget(80, 150)),
         samples=[describe(c, o) for c, o in list(zip(cases, obs))[:3]], mismatches=mism, findings=fnd,
         extra=dict(compared_in_coq=len(items), near_tie=len(near), skipped_unstable=len(cases) - large - len(items) - len(near),
                    minres_clauses_checked=minres_checked, krylov_space_exhausted_columns=exhausted, large_oracle_only=large,
-                   monotonicity_pairs=mono, inv_entry_point=invpath, impl_exceptions=sum(1 for o in obs if not o.get("ok")),
+                   monotonicity_pairs=mono, inv_entry_point=invpath, mixed_dtype_cases=mixed, reused_algorithm_cases=reuse, impl_exceptions=sum(1 for o in obs if not o.get("ok")),
                    exceptions_attributed_to_flags=attributed, early_breakdown_cases=early,
                    worst_final_over_initial_residual_where_checked=ratio_worst[0], worst_excess_over_optimum_where_checked=excess_worst[0],
                    tol_decades=hist(None, lambda c: int(np.floor(np.log10(c["tol"])))), kappa_decades=hist(None, lambda c: int(np.floor(np.log10(max(c["kappa"], 1))))),
